@@ -200,16 +200,31 @@ func isAlphaNumeric(r byte) bool {
 var (
 	leadingOrTrailing_ = regexp.MustCompile("^_+|_+$")
 	consecutive_       = regexp.MustCompile("__+")
-	wordBoundary1      = regexp.MustCompile("([a-zA-Z])([A-Z][a-z])") // <letter>_<upper><lower>
-	wordBoundary2      = regexp.MustCompile("([a-zA-Z])([0-9])")      // <letter>_<digit>
-	wordBoundary3      = regexp.MustCompile("([0-9])([a-zA-Z])")      // <digit>_<letter>
 )
 
+func isLetter(r byte) bool { return 'A' <= r && r <= 'Z' || 'a' <= r && r <= 'z' }
+func isUpper(r byte) bool  { return 'A' <= r && r <= 'Z' }
+func isLower(r byte) bool  { return 'a' <= r && r <= 'z' }
+func isDigit(r byte) bool  { return '0' <= r && r <= '9' }
+
+// An underscore is inserted at every word boundary: <letter>_<upper><lower>,
+// <letter>_<digit>, <digit>_<letter>. Boundaries are found by position (the
+// official implementation uses zero-width look-arounds), so that two
+// boundaries two characters apart ("isOkNow") are both found.
 func toUpperUnderscore(ident string) string {
 	ident = leadingOrTrailing_.ReplaceAllString(ident, "")
-	ident = consecutive_.ReplaceAllString(ident, "${1}_${2}")
-	ident = wordBoundary1.ReplaceAllString(ident, "${1}_${2}")
-	ident = wordBoundary2.ReplaceAllString(ident, "${1}_${2}")
-	ident = wordBoundary3.ReplaceAllString(ident, "${1}_${2}")
-	return strings.ToUpper(ident)
+	ident = consecutive_.ReplaceAllString(ident, "_")
+	var buf bytes.Buffer
+	for i := 0; i < len(ident); i++ {
+		if i > 0 {
+			var p, c = ident[i-1], ident[i]
+			if isLetter(p) && isUpper(c) && i+1 < len(ident) && isLower(ident[i+1]) ||
+				isLetter(p) && isDigit(c) ||
+				isDigit(p) && isLetter(c) {
+				buf.WriteByte('_')
+			}
+		}
+		buf.WriteByte(ident[i])
+	}
+	return strings.ToUpper(buf.String())
 }
